@@ -273,6 +273,16 @@ def w_history(arg):
             r1 = L(d1, pool[a]); L(d1, pool[b]); r3 = check(d1, a, 'cache-hit-returns-the-value-computed-for-that-input', ['Lij(%d)' % a, 'Lij(%d)' % b, 'Lij(%d)' % a])
             for T in r3: T += 7.0
             check(d1, a, 'caller-edits-of-a-cache-hit-do-not-reach-the-cache', ['Lij(%d)' % a, 'Lij(%d)' % b, 'Lij(%d)' % a, 'edit', 'Lij(%d)' % a])
+        # a cache populated before saving must serve the same values after reloading (hits on the reloaded copy, then a miss, then hits again)
+        try:
+            d1, _ = build(cid, tier, seed)
+            for a in (0, 2): L(d1, pool[a])
+            d2 = h5_roundtrip(d1)
+            hist = ['Lij(0)', 'Lij(2)', 'save/reload']
+            for a in (0, 2, 1, 0):
+                hist.append('Lij(%d)' % a); check(d2, a, 'cache-served-after-reload-equals-a-fresh-calculation', hist)
+        except Exception as ex:
+            acc.check(False, 'cache-served-after-reload-equals-a-fresh-calculation', '%s: %s' % (type(ex).__name__, str(ex)[:200]), sig=('reloadhit-exc',))
         # range regeneration to a DIFFERENT range: the regenerated calculator must equal one constructed at that range
         if sum(len(j) for j in d.om0_jn) <= 14:
             try:
